@@ -18,6 +18,9 @@ const (
 	// Link target) answered 401 with a challenge inside a request chain of registry j and the
 	// retry carried j's credentials (to that host, or to the token endpoint that host named)
 	sigThirdHost = "third-host-challenge-answered-with-registry-creds"
+	// the same for the host named in the Location of an upload session (kept apart because the
+	// existing suite, scheme/reg TestBlobPut, exercises exactly this as accepted behaviour)
+	sigUploadHost = "upload-location-host-challenge-answered-with-registry-creds"
 	// a paged listing (Link: rel=next) is continued through the other member of a mirror pair:
 	// the page URL of host A is requested with the auth state of host B, A's challenge is answered with B's credentials
 	sigMirrorPage = "paged-list-continued-through-mirror-pair-sends-other-hosts-creds"
@@ -270,6 +273,15 @@ func oracle(c *Case, res *runResult) ([]*evid.Violation, *stats) {
 			}
 		}
 	}
+	// namedExactly: host `by` named exactly this token endpoint (host and path) before seq
+	namedExactly := func(by int, e *rm.Entry) bool {
+		for _, n := range named[by] {
+			if n.Host == e.Host && n.Seq < e.Seq && (n.Path == e.Path || !strings.HasPrefix(e.Path, "/token/")) {
+				return true
+			}
+		}
+		return false
+	}
 	for _, e := range entries {
 		st.requests++
 		st.perHost[e.Host]++
@@ -332,17 +344,25 @@ func oracle(c *Case, res *runResult) ([]*evid.Violation, *stats) {
 			}
 			chain := c.chainTargets(j)
 			if x >= 0 && chain[x] && seqBefore(challenged[x], e.Seq) {
-				addV(evid.V(sigThirdHost, "%s; that host is a %s reached from registry %d because a server response pointed there, it had answered 401 with a challenge before", what, c.role(x, j), j))
+				sig := sigThirdHost
+				if c.Hosts[x].Kind == "upload" {
+					sig = sigUploadHost
+				}
+				addV(evid.V(sig, "%s; that host is a %s reached from registry %d because a server response pointed there, it had answered 401 with a challenge before", what, c.role(x, j), j))
 				continue
 			}
 			attributed := false
 			if x >= 0 && isCredKind(s.Kind) {
-				for y := range chain {
-					if y == j {
+				for y := 0; y < len(c.Hosts); y++ {
+					if y == j || !chain[y] {
 						continue
 					}
-					if ok, _ := namedBefore(y, e.Host, e.Seq); ok {
-						addV(evid.V(sigThirdHost, "%s; this token endpoint was named by the challenge of host %d (%s), a third host in the request chain of registry %d, not by registry %d itself", what, y, c.role(y, j), j, j))
+					if namedExactly(y, e) {
+						sig := sigThirdHost
+						if c.Hosts[y].Kind == "upload" {
+							sig = sigUploadHost
+						}
+						addV(evid.V(sig, "%s; this token endpoint was named by the challenge of host %d (%s), a third host in the request chain of registry %d, not by registry %d itself", what, y, c.role(y, j), j, j))
 						attributed = true
 						break
 					}
@@ -359,7 +379,7 @@ func oracle(c *Case, res *runResult) ([]*evid.Violation, *stats) {
 					if !c.sameMirrorGroup(j, p) || !seqBefore(contChallenged[p], e.Seq) {
 						continue
 					}
-					namedByP, _ := namedBefore(p, e.Host, e.Seq)
+					namedByP := namedExactly(p, e)
 					if (x == p && (isContinuation(e) || strings.HasPrefix(e.Path, "/token/"))) || (isCredKind(s.Kind) && namedByP) {
 						addV(evid.V(sigMirrorPage, "%s; hosts %d and %d belong to one upstream/mirror group, host %d had answered 401 to the continuation request of a paged tag/referrers listing", what, j, p, p))
 						attributed = true
@@ -378,7 +398,7 @@ func oracle(c *Case, res *runResult) ([]*evid.Violation, *stats) {
 				what := fmt.Sprintf("request #%d %s %s://%s%s?%s carries secrets (%s = kind[owner]) in clear text although the client configuration of %s says TLS %s", e.Seq, e.Method, e.Scheme, e.Host, e.Path, e.RawQuery, carried, e.Host, c.effTLS(x))
 				sig := "cleartext-credentials-to-tls-host"
 				if strings.HasPrefix(e.Path, "/token/") {
-					for by := range named {
+					for by := 0; by < len(c.Hosts); by++ {
 						if _, http := namedBefore(by, e.Host, e.Seq); http {
 							sig = sigClearRealm
 							what += fmt.Sprintf("; the realm was given with scheme http by the challenge of host %d", by)
